@@ -6,4 +6,7 @@ CONSTANTS
   MaxLen = 0
   MaxTraffic = 0
   Reuse = "statement"
+  Paths = {"whole", "wholeOther", "res"}
+  Norm = "-"
+  Defaulting = {}
 CHECK_DEADLOCK FALSE
